@@ -81,7 +81,9 @@ func runPRNG(c *Ctx) *Violation {
 	for i := range ref {
 		ref[i] = g.Uint64()
 	}
-	desc := func(s string) func() string { return func() string { return name + " seed " + fmt.Sprint(seed) + ": " + s } }
+	desc := func(s string) func() string {
+		return func() string { return name + " seed " + fmt.Sprint(seed) + ": " + s }
+	}
 	// restart@k for every k in 0..L
 	live := newGen(kind, seed)
 	var lastEnc []byte
